@@ -242,6 +242,12 @@ def gen(ctx):
         inf = IO.analyse(s)
         for p in (["mixed", "edge"] if ctx.quick else ["mixed", "edge", "special", "random"]):
             cases.append((si, IO.fmt_dat(IO.gen_dat(inf, rnd, p, maxcells=24))))
+    # thousands of 3-component cells: block-wise writers / readers whose staging blocks do not fill on a cell boundary
+    big3 = [si for si, s in enumerate(stacks) if IO.analyse(s).gen[-1][0] == "A" and IO.analyse(s).gen[-1][2] == 3]
+    for si in big3[:2] if ctx.quick else big3:
+        inf = IO.analyse(stacks[si])
+        bare = not any(g[0] == "S" for g in inf.gen)
+        cases.append((si, IO.fmt_dat(IO.gen_dat(inf, rnd, "mixed", maxcells=24000, ext_pool=[5600, 6001] if bare else [18, 19, 75]))))
     rw = []
     for (ct, t) in ((0, 0), (2, 1)) if ctx.quick else ((0, 0), (1, 1), (2, 0), (0, 1)):
         for lay in L.LAYS:
